@@ -349,10 +349,101 @@ def apply_rw(text: str, rule, rx, repl, mn, log):
 
     out = re.sub(rx, sub, text, flags=re.S)
     if cnt < mn:
-        raise ExtractError(f'rewrite {rule} /{rx}/ applied {cnt} times, expected >= {mn} (anchor lost)')
+        # the construct this rewrite redirects is absent from the current source. The text is then verified as it stands:
+        # Verus decides (verified = the real text holds; unsupported construct = undecided; failed obligation = violation).
+        # VERIF_STRICT_RW=1 (template development) turns this into a lost anchor instead.
+        if os.environ.get('VERIF_STRICT_RW'):
+            raise ExtractError(f'rewrite {rule} /{rx}/ applied {cnt} times, expected >= {mn} (anchor lost)')
+        log.append(dict(rule=rule, regex=rx, replacement=repl, applied=cnt, note=f'expected >= {mn}: construct absent, text verified as it stands'))
+        return out
     log.append(dict(rule=rule, regex=rx, replacement=repl, applied=cnt))
     return out
 
+
+
+# --------------------------------------------------------------------------------------------------
+# R13: call-site inlining of a helper function the unit does not know (a refactor moved code into a new free function)
+# --------------------------------------------------------------------------------------------------
+
+INLINE = {'names': set(), 'sources': {}}   # set by build_unit(inline=...)
+
+
+def _split_top(s: str):
+    """split at top-level commas (s is masked-safe text of an argument / parameter list)"""
+    parts, depth, cur = [], 0, ''
+    ms = mask(s)
+    for ch, mc in zip(s, ms):
+        if mc in '([{<':
+            depth += 1
+        elif mc in ')]}>':
+            depth -= 1
+        if mc == ',' and depth == 0:
+            parts.append(cur)
+            cur = ''
+        else:
+            cur += ch
+    if cur.strip():
+        parts.append(cur)
+    return [p.strip() for p in parts]
+
+
+def _helper_def(name):
+    """(params [(ident, type)], body one-line) of a free helper `fn name(..) { .. }` eligible for inlining, else None"""
+    for rel, (src, m) in INLINE['sources'].items():
+        for mo in re.finditer(r'\bfn\s+' + re.escape(name) + r'\s*\(', m):
+            # free function only (depth 0) and no generics
+            if enclosing_header(m, mo.start())[1] >= 0:
+                continue
+            po = mo.end() - 1
+            pc = match_brace(m, po)
+            params = []
+            ok = True
+            for prm in _split_top(src[po + 1:pc]):
+                pm = re.match(r'^(?:mut\s+)?([A-Za-z_]\w*)\s*:\s*(.+)$', prm, flags=re.S)
+                if not pm:
+                    ok = False
+                    break
+                params.append((pm.group(1), ' '.join(pm.group(2).split())))
+            bo = m.find('{', pc)
+            if bo < 0 or not ok:
+                continue
+            bc = match_brace(m, bo)
+            bodym = m[bo + 1:bc]
+            if re.search(r'\breturn\b|\?|\.await\b|\bloop\b|\bwhile\b|\bfor\b', bodym):
+                continue
+            # body with comments removed (masked text blanks comments AND literals, so rebuild: keep source chars except comment spans)
+            body = src[bo + 1:bc]
+            body = re.sub(r'//[^\n]*', '', body)
+            body = ' '.join(body.split())
+            return dict(rel=rel, line=line_of(src, mo.start()), params=params, body=body)
+    return None
+
+
+def inline_helpers(text: str, log):
+    for name in sorted(INLINE['names']):
+        d = None
+        guard = 0
+        while guard < 20:
+            guard += 1
+            mm = mask(text)
+            mo = re.search(r'(?<![\w:.])' + re.escape(name) + r'\s*\(', mm)
+            if not mo:
+                break
+            if d is None:
+                d = _helper_def(name)
+                if d is None:
+                    break
+            po = mo.end() - 1
+            pc = match_brace(mm, po)
+            args = _split_top(text[po + 1:pc])
+            if len(args) != len(d['params']):
+                break
+            lets = ' '.join(f'let {pn}: {pt} = {a};' for (pn, pt), a in zip(d['params'], args))
+            new = '{ ' + lets + ' ' + d['body'] + ' }'
+            nl = text[mo.start():pc + 1].count('\n')
+            text = text[:mo.start()] + new + '\n' * nl + text[pc + 1:]
+            log.append(dict(rule='R13', what=f"call to helper `{name}` ({d['rel']}:{d['line']}) inlined at the call site: {new[:160]}", applied=1))
+    return text
 
 ATTR_DOC = re.compile(r'^[ \t]*(///[^\n]*|//![^\n]*|#!?\[[^\]]*\](?:[ \t]*))[ \t]*$', re.M)
 
@@ -489,8 +580,10 @@ def parse_kv(parts):
     return kv
 
 
-def build_unit(tmpl_path: str, repo: str):
+def build_unit(tmpl_path: str, repo: str, inline=None):
     """returns dict(text, map, meta)"""
+    INLINE['names'] = set(inline or [])
+    INLINE['sources'] = {}
     tl = open(tmpl_path).read().split('\n')
     g = Gen()
     meta = dict(unit=None, properties=[], min_verified=1, functions=[], items=[], canaries=[], obligations=[],
@@ -505,6 +598,7 @@ def build_unit(tmpl_path: str, repo: str):
                 raise ExtractError(f'source file missing: {rel}')
             s = open(p).read()
             srccache[rel] = (s, mask(s))
+            INLINE['sources'][rel] = srccache[rel]
         return srccache[rel]
 
     i = 0
@@ -641,6 +735,8 @@ def _emit_fn(g, meta, tmpl, rel, src, m, ctx, name, kv, subs):
             text = apply_rw(text, rule, rx, repl, mn, rwlog)
     if kv.get('attrs') != 'keep':
         text = strip_attrs(text, rwlog)
+    if INLINE['names']:
+        text = inline_helpers(text, rwlog)
     mm = mask(text)
     # re-find body open in rewritten text: first '{' at depth 0 after fn name
     mo = re.search(r'\bfn\s+' + re.escape(name) + r'\b', mm)
